@@ -261,10 +261,25 @@ class Verifier(Engine):
 
     # ------------------------------------------------------------------ solving
     def solve_all(self, timeout_ms=10000, seed=0, race=True, jobs=None):
+        """the claimed kinds first, with the whole budget; machine-integer overflow obligations (thorough tier, reported only) afterwards
+        with a budget of their own, so that they can never starve an obligation that is part of the claim"""
+        allo = self.obls
+        main = [o for o in allo if o.kind != 'overflow']; extra = [o for o in allo if o.kind == 'overflow']
+        try:
+            self.obls = main
+            t = self._solve_all(timeout_ms, seed, race, jobs, self.opts.get('budget_s', 150))
+            if extra:
+                self.obls = extra
+                t += self._solve_all(min(timeout_ms, 10000), seed, False, jobs, self.opts.get('overflow_budget_s', 120))
+        finally:
+            self.obls = allo
+        return t
+
+    def _solve_all(self, timeout_ms, seed, race, jobs, budget_s):
         """discharge all obligations; forked workers share the z3 terms by copy-on-write"""
         global _WORK
         t0 = time.time()
-        self.deadline = t0 + self.opts.get('budget_s', 150)
+        self.deadline = t0 + budget_s
         jobs = jobs or int(os.environ.get('GOCV_JOBS', '16'))
         n = len(self.obls)
         if jobs <= 1 or n < 8:
